@@ -253,6 +253,56 @@ def problem_features(P):
     return sorted(fs)
 
 
+def disjunction_sites(Q):
+    """Where the compiled problem Q still has an Or / Implies node: 'quantified' (under Exists/Forall),
+    'value' (in an assigned value), 'cond' (anywhere else in a condition, goal or constraint)."""
+    sites = set()
+
+    def visit(e, where):
+        if e["op"] in ("or", "implies"):
+            sites.add(where)
+        w = "quantified" if e["op"] in ("exists", "forall") else where
+        for a in e.get("args", []):
+            visit(a, w)
+
+    def eff(ef):
+        visit(ef["c"], "cond")
+        visit(ef["v"], "value")
+
+    for a in Q["actions"]:
+        for c in a["pre"]:
+            visit(c, "cond")
+        for e in a["effects"]:
+            eff(e if a["kind"] == "inst" else e["e"])
+        for c in a.get("conds", []):
+            visit(c["c"], "cond")
+    for k in ("goals", "invariants", "traj"):
+        for g_ in Q.get(k, []):
+            visit(g_, "cond")
+    for tg_ in Q.get("timed_goals", []):
+        visit(tg_["g"], "cond")
+    for te in Q.get("timed_effects", []):
+        eff(te["e"])
+    return sorted(sites)
+
+
+def quantified_connective(P):
+    """The input problem has a quantifier whose body contains a Boolean connective (the one place where
+    DisjunctiveConditionsRemover is known to leave a disjunction: Dnf treats a quantifier as an atom)."""
+    def has_conn(e):
+        return e["op"] in ("and", "or", "not", "implies", "iff") or any(has_conn(a) for a in e.get("args", []))
+
+    def visit(e):
+        if e["op"] in ("exists", "forall") and any(has_conn(a) for a in e["args"]):
+            return True
+        return any(visit(a) for a in e.get("args", []))
+
+    es = list(_exprs(P)) + [t["g"] for t in P.get("timed_goals", [])]
+    for te in P.get("timed_effects", []):
+        es += [te["e"]["c"], te["e"]["v"]]
+    return any(visit(e) for e in es)
+
+
 RELEVANT = {"ncrm": ["aad"], "dcrm": ["constatom", "disjcondinc"], "cerm": ["multicondassign"]}
 
 
